@@ -66,3 +66,11 @@ add("C14", "complete sweep of the regeneration configuration space (directory x 
     "Exhaustive enumeration of a small finite space on every run: lox built from the working tree regenerates internal/parser and the three examples from every start state and invocation style; a second-stage lox rebuilt from the regenerated tree must reproduce the same bytes.",
     "A fact about one tree state: generation only varies the circumstances of regeneration.",
     "DESIGN.md §3 C14")
+add("C13", "rapid stateful histories over one package directory (write spec, generate in-process / via binary from various working directories, delete, plant foreign files, touch) plus repeated in-process regeneration; byte equality with a clean generation",
+    "Generated-history search: every generate step must reproduce, byte for byte, the three files and the --report text of a clean generation of the same package; repeated in-process generations sample Go's randomised map iteration orders.",
+    "The clean generation (fresh directory, in-process) defines the canonical bytes.",
+    "DESIGN.md §3 C13")
+add("C18", "rapid-generated multi-package programs and goroutine workloads under the Go race detector, with a sequential run of the same workload as the differential oracle",
+    "Generated-workload search: 2-4 generated packages linked into one -race binary, 2-32 goroutines released by a barrier with injected scheduling points and GOMAXPROCS in {2,8,16}; any race report or any result differing from the sequential run is a violation.",
+    "The harness does not own the schedule; the race detector flags unsynchronised shared accesses independent of timing, logic-only interference shows only on the schedules that happened.",
+    "DESIGN.md §3 C18")
